@@ -408,5 +408,5 @@ let handle_smtp (kind : string) (ins : string list) (outs : string list) : bool 
 let () =
   Mlutil.iter_lines (fun line ->
     let (kind, ins, outs) = Mlutil.split_case line in
-    if (kind = "smtp" || kind = "smtptls" || kind = "smtppar" || kind = "smtprm" || kind = "asm" || kind = "asmtls" || kind = "asmr" || kind = "lua" || kind = "luareload" || kind = "luapar") && handle_smtp kind ins outs then ()
+    if (kind = "smtp" || kind = "smtpallow" || kind = "smtpdefer" || kind = "smtptls" || kind = "smtppar" || kind = "smtprm" || kind = "asm" || kind = "asmtls" || kind = "asmr" || kind = "lua" || kind = "luareload" || kind = "luapar") && handle_smtp kind ins outs then ()
     else Mlutil.print_model ["UNKNOWN-KIND"] "ok")
